@@ -516,6 +516,20 @@ def r3(repo, chk):
                         alts = [(c1 + c2, n1 if n1 is not None else n2) for c1, n1 in alts for c2, n2 in a2 if not (n1 is not None and n2 is not None and n1 != n2)]
                 bad = _sat_with_due(alts) if due_kind == "due" else any(n is not True for c, n in alts)
                 chk.ob("R3", f"{name}: the early `{type(e).__name__.lower()}` at the top of the packet loop cannot happen while an ACK is {'overdue' if due_kind == 'due' else 'pending'}", not bad, "pacing (or another early exit) can postpone an overdue ACK: its condition overlaps `ack_at is not None and ack_at < now`", fn.loc(e))
+    # pacing is applied where the ACK exemption lives (_write_application): datagrams_to_send itself never gives up
+    # because of the pacer, or a due ACK would wait for the pacing deadline
+    ds = Fn(repo, CONN + "datagrams_to_send")
+    writers = [c for c in ds.calls() if call_name(c) in ("self._write_application", "self._write_handshake")]
+    if not writers:
+        raise AnalysisError("datagrams_to_send: packet writers not found")
+    for r in ds.returns():
+        if any(ds.cfg.reaches(ds.cfg.begin[r], ds.cfg.node_of(w)) for w in writers):
+            continue
+        if all(ds.before(w, r) for w in writers if ds.cfg.reaches(ds.cfg.node_of(w), ds.cfg.begin[r])) and any(ds.cfg.reaches(ds.cfg.node_of(w), ds.cfg.begin[r]) for w in writers):
+            continue  # after the writers ran
+        at = ds.guard_atoms(r) + ds.lexical_guards(r, expand=True)
+        bad = [a[0] for a in at if "pacing" in a[0] or "pacer" in a[0]]
+        chk.ob("R3", "datagrams_to_send: an early return before the packet writers does not depend on the pacer", not bad, f"returns under {bad}: the exemption that lets a due ACK through pacing is in _write_application and is never reached", ds.loc(r))
     wa = Fn(repo, CONN + "_write_application")
     # the 1-RTT ACK is only sent once the handshake is complete: matches the property's scope
 
